@@ -22,9 +22,9 @@ CLAIMED = {
     "C13": dict(
         text="Bounded model checking (Kani) of the real Range code: degenerate range yields 0, from_min_max is total and rejects exactly "
              "unusable pairs, normalize never panics for any f64 triple, and the range-selection rule (limits iff both present and of a supported "
-             "kind, else the data type's range) for every combination of attribute type and limit kinds with symbolic values. The value claims that "
-             "need the result of a 64-bit float division for all operands ([0,1], monotone, formula) did not finish by bit-blasting and are decided "
-             "in the M-lane with division axiomatised (see DESIGN C13).",
+             "kind, else the data type's range) for every combination of attribute type and limit kinds with symbolic values (all four attributes present with distinct ranges). The value claims that "
+             "need the RESULT of a 64-bit float division for all operands ([0,1], monotone, formula, endpoints) are NOT decided: neither bit-blasting nor an axiomatised "
+             "division finished within the caps (DESIGN 0.6).",
         note="Trusted: Kani/CBMC float semantics (IEEE-754 RNE). format! stubbed. Selection instances restrict magnitudes (<1e30, <2^40).",
         technique="bounded model checking (Kani/CBMC) over symbolic f64/i64 values; attribute/limit kinds enumerated",
         ref="§6 C13"),
